@@ -69,6 +69,7 @@ structure St where
   policyLog : List (Nat × Nat) := []     -- log of should_retry calls: (future, attempt)
   retries : List (Nat × Nat × Nat × Nat) := [] -- log of `_retry`: (future, finished delegate, time of the section, sleep_time)
   finished : List (Nat × Nat) := []      -- log: (delegate, time at which it became done)
+  qGauge : Int := 0                      -- the `retry_queue` gauge: +1 in `_append_job`, -1 in `_pop_job`
 deriving Repr
 
 inductive Act
@@ -95,20 +96,20 @@ def jobOfFut (s : St) (f : Nat) : Option Job := s.jobs.find? (fun j => j.fut == 
 def step (s : St) : Act → Option St
   | .submit f =>
       if f ∈ s.submitted then none else
-      some { s with jobs := s.jobs ++ [⟨f, 0, s.now, none, false, none⟩], submitted := s.submitted ++ [f] }
+      some { s with jobs := s.jobs ++ [⟨f, 0, s.now, none, false, none⟩], submitted := s.submitted ++ [f], qGauge := s.qGauge + 1 }
   | .submitNow j =>
       -- selected by K2: no delegate, not stopped, due
       if j ∈ s.jobs ∧ j.del = none ∧ j.stop = false ∧ j.whenT ≤ s.now ∧ holdsF s j.fut = false then
-        if j.fut ∈ s.done then some { s with jobs := s.jobs.erase j }
+        if j.fut ∈ s.done then some { s with jobs := s.jobs.erase j, qGauge := s.qGauge - 1 }
         else
           let d := s.nextDel
           some { s with jobs := s.jobs.erase j ++ [⟨j.fut, j.attempt + 1, 0, some d, false, none⟩],
                         nextDel := d + 1, delFut := s.delFut ++ [(d, j.fut)],
-                        submits := s.submits ++ [(j.fut, j.attempt + 1, s.now)] }
+                        submits := s.submits ++ [(j.fut, j.attempt + 1, s.now)], qGauge := s.qGauge - 1 + 1 }
       else none
   | .discard j =>
       if j ∈ s.jobs ∧ j.del = none ∧ j.stop = true then
-        some { s with jobs := s.jobs.erase j, done := if j.fut ∈ s.done then s.done else s.done ++ [j.fut] }
+        some { s with jobs := s.jobs.erase j, done := if j.fut ∈ s.done then s.done else s.done ++ [j.fut], qGauge := s.qGauge - 1 }
       else none
   | .ddone d c =>
       if d < s.nextDel ∧ d ∉ s.delDone then
@@ -121,7 +122,8 @@ def step (s : St) : Act → Option St
           if d ∈ s.delCancelled then
             -- `_me_delegate_cancelled`: nothing to do while our own cancel() is in progress or when already done
             some { s with jobs := s.jobs.erase j,
-                          done := if holdsF s j.fut || decide (j.fut ∈ s.done) then s.done else s.done ++ [j.fut] }
+                          done := if holdsF s j.fut || decide (j.fut ∈ s.done) then s.done else s.done ++ [j.fut],
+                          qGauge := s.qGauge - 1 }
           else none
       | none => none
   | .cbPolicy d r =>
@@ -144,13 +146,13 @@ def step (s : St) : Act → Option St
       | some j, some (.retry t) =>
           some { s with jobs := s.jobs.erase j ++ [⟨j.fut, j.attempt, s.now + t, none, j.stop, some d⟩],
                         decs := s.decs.filter (fun p => p.1 != d),
-                        retries := s.retries ++ [(j.fut, d, s.now, t)] }
+                        retries := s.retries ++ [(j.fut, d, s.now, t)], qGauge := s.qGauge - 1 + 1 }
       | _, _ => none
   | .cbFinal d =>
       match jobOfDel s d, s.decs.lookup d with
       | some j, some .final =>
           some { s with jobs := s.jobs.erase j, decs := s.decs.filter (fun p => p.1 != d),
-                        done := if j.fut ∈ s.done then s.done else s.done ++ [j.fut] }
+                        done := if j.fut ∈ s.done then s.done else s.done ++ [j.fut], qGauge := s.qGauge - 1 }
       | _, _ => none
   | .cancelScan f =>
       if f ∈ s.submitted ∧ f ∉ s.done ∧ holdsF s f = false then
@@ -159,7 +161,7 @@ def step (s : St) : Act → Option St
         | some j =>
             match j.del with
             | none => some { s with jobs := s.jobs.erase j, cancelling := s.cancelling ++ [(f, .scanned none true)],
-                                    cancelReq := s.cancelReq ++ [f] }
+                                    cancelReq := s.cancelReq ++ [f], qGauge := s.qGauge - 1 }
             | some d => some { s with jobs := s.jobs.map (fun x => if x = j then { x with stop := true } else x),
                                       cancelling := s.cancelling ++ [(f, .scanned (some d) false)],
                                       cancelReq := s.cancelReq ++ [f] }
